@@ -19,7 +19,7 @@ def check_c11(tier):
     out = Outcome("C11")
     thorough = tier == "thorough"
     wd = workdir("C11")
-    bins = cargo_build(["purefn"])
+    bins = cargo_build("purefn")
     # 1. design level: transcribed algorithms meet the declarative contract for every input of a W-bit word
     w_mc = 9 if thorough else 7
     cfg = _mc_cfg(wd, "MC_Bumping.cfg", {"W = 8": "W = %d" % w_mc})
@@ -84,7 +84,7 @@ def check_c12(tier):
     out = Outcome("C12")
     thorough = tier == "thorough"
     wd = workdir("C12")
-    bins = cargo_build(["purefn"])
+    bins = cargo_build("purefn")
     r = tlc("MC_ChunkSize", "MC_ChunkSize_thorough.cfg" if thorough else "MC_ChunkSize.cfg", workers=12,
             timeout=3600 if thorough else 900)
     if r.error and "ChunkSizeMeetsContract" in (r.error or ""):
